@@ -387,7 +387,8 @@ def coqchk(prop, timeout=2400):
 # ------------------------------------------------------------------------------- results
 
 def write_evidence(prop, tier, seed, coverage, assumptions, wall, violations, level="proof"):
-    os.makedirs(os.path.join(ROOT, "evidence"), exist_ok=True)
+    evdir = os.environ.get("VERIF_EVIDENCE_DIR") or os.path.join(ROOT, "evidence")   # seedtest.py redirects it: evidence/ is for the unchanged tree
+    os.makedirs(evdir, exist_ok=True)
     ev = {
         "property_id": prop,
         "tier": tier,
@@ -398,7 +399,7 @@ def write_evidence(prop, tier, seed, coverage, assumptions, wall, violations, le
         "wall_s": round(wall, 2),
         "violations": violations,
     }
-    with open(os.path.join(ROOT, "evidence", prop + ".json"), "w") as f:
+    with open(os.path.join(evdir, prop + ".json"), "w") as f:
         json.dump(ev, f, indent=1, sort_keys=True)
 
 
